@@ -16,7 +16,7 @@ RULE = ("Hypothesis generates lattice models (degenerate spectra frequent: half 
         "Non-trivial: degenerate spectrum, or complex build, or an operator part with both dimensions >=2.")
 ASSUMPTIONS = ["numpy", "eigenvector validity itself is C03's business; gauge freedom is respected because pomerol's own eigenvectors are used for the back-rotation"]
 CONFIG = {
-    "quick": {"flavours": ["real", "complex"], "shards": 8, "examples": 120, "min_nontrivial": 50, "budget_s": 100},
+    "quick": {"flavours": ["real", "complex"], "shards": 8, "examples": 500, "min_nontrivial": 50, "budget_s": 120},
     "thorough": {"flavours": ["real", "complex"], "shards": 16, "examples": 2000, "min_nontrivial": 1500, "budget_s": 3000},
 }
 REQUIRED_CLASSES = {"quick": ["degenerate", "complex", "part>=2x2", "multi-block"], "thorough": ["degenerate", "complex", "part>=2x2", "multi-block"]}
